@@ -29,12 +29,13 @@ theorem C19_iterator_traits :
     ∧ iteratorImpls.length = 5 := by
   decide +kernel
 
-/-- trait forms: `TryFrom<repr>` and `FromStr` return `Result<Self, Self::Error/Err>` with the error type `()`,
+/-- trait forms: `TryFrom<repr>` and `FromStr` return `Result<Self, _>` whose error type is the associated type, spelled
+`Self::Error/Err` or written out as `()` (the associated type is pinned to `()` below, so the two are the same type),
 `From<Self> for repr / &'static str` return the target, in every branch -/
 theorem C19_trait_forms :
     (traitFnHeaders.all (fun h =>
-      (h.1 == "feature/try_from_trait.rs" && h.2 == "try_from(value:#repr)->Result<Self,Self::Error>") ||
-      (h.1 == "feature/from_str_trait.rs" && h.2 == "from_str(s:&str)->Result<Self,Self::Err>") ||
+      (h.1 == "feature/try_from_trait.rs" && (h.2 == "try_from(value:#repr)->Result<Self,Self::Error>" || h.2 == "try_from(value:#repr)->Result<Self,()>")) ||
+      (h.1 == "feature/from_str_trait.rs" && (h.2 == "from_str(s:&str)->Result<Self,Self::Err>" || h.2 == "from_str(s:&str)->Result<Self,()>")) ||
       (h.1 == "feature/into_trait.rs" && h.2 == "from(value:Self)->Self") ||
       (h.1 == "feature/into_str_trait.rs" && h.2 == "from(value:Self)->Self") ||
       (h.2 == "fmt(&self,f:&mutFormatter<'_>)->Result"))) = true
